@@ -518,8 +518,10 @@ func ReplayMain(root string, path string) int {
 	}
 	var spec ReplaySpec
 	if err := json.Unmarshal(b, &spec); err != nil {
-		fmt.Fprintln(os.Stderr, err)
-		return 2
+		// not a case replay (e.g. a race-detector report or a cross-process digest
+		// conflict): show the recorded witness; reproducing it means re-running the check
+		fmt.Printf("recorded witness (not a single-case replay):\n%s\n", b)
+		return 1
 	}
 	p := Lookup(spec.Property)
 	if p == nil {
